@@ -290,33 +290,7 @@ func dominatingCase(p *core.Pather, b *ssa.BasicBlock, v string) *ssa.BasicBlock
 func r17pco(c *core.Ctx) {
 	const R = "R17.pco"
 	c.Rule(R, "PCO Marshal/UnMarshal move ID(2) / length(1) / contents through the same fields in the same order; each container appended exactly once; Add* helpers' lengths match")
-	m := mustFunc(c, pNasC, "ProtocolConfigurationOptions.Marshal")
-	mp := core.NewPather(m)
-	var seq []string
-	hdrOK := false
-	for _, ci := range core.CallsTo(m, "encoding/binary.Write") {
-		a := mp.Path(ci.Common().Args[2])
-		seq = append(seq, a)
-	}
-	// header value 0x80
-	mba := core.NewBitAnalyzer(m)
-	for _, b := range m.Blocks {
-		for _, in := range b.Instrs {
-			if st, ok := in.(*ssa.Store); ok && len(seq) > 0 && mp.Path(st.Addr) == seq[0] {
-				if bv := mba.Bits(st.Val); bv != nil && len(bv) == 8 && bv.IsConst(7, 0, 0x80) {
-					hdrOK = true
-				}
-			}
-		}
-	}
-	want := []string{"", ".ProtocolOrContainerID", ".LengthOfContents", ".Contents"}
-	okSeq := len(seq) == 4
-	for i := 1; i < 4 && okSeq; i++ {
-		if !strings.HasSuffix(seq[i], want[i]) {
-			okSeq = false
-		}
-	}
-	c.Check(okSeq && hdrOK, R, "nasConvert.PCO.Marshal:order", m.Pos(), "0x80, then per container ID, length, contents", "Marshal must write the header octet 0x80 and then ID, LengthOfContents, Contents of each container in that order; writes %v (header 0x80: %v)", seq, hdrOK)
+	r17pcoMarshalX(c, R)
 	// UnMarshal
 	u := mustFunc(c, pNasC, "ProtocolConfigurationOptions.UnMarshal")
 	up := core.NewPather(u)
@@ -404,51 +378,7 @@ func r17pco(c *core.Ctx) {
 	c.Check(ok1, R, "nasConvert.PCO.UnMarshal:state-length", u.Pos(), "read length (1 octet); append the container here iff its length is 0", "length state must read LengthOfContents, account 1 octet, go to the content state and append the container exactly when its length is 0 (the list may end right after an empty container); reads=%v consumed=%v appends=%d under %v next=%v", s1.reads, s1.dec, s1.appends, s1.appCond, s1.next)
 	ok2 := len(s2.reads) == 1 && strings.HasSuffix(s2.reads[0], ".Contents") && onlyInt(s2.next, 0) && s2.appends == 1 && len(s2.appCond) == 1 && s2.appCond[0] == ">0" && len(s2.dec) == 1 && strings.HasSuffix(s2.dec[0], ".LengthOfContents")
 	c.Check(ok2, R, "nasConvert.PCO.UnMarshal:state-content", u.Pos(), "read contents (length octets); append iff length > 0; back to ID state", "content state must read LengthOfContents octets into Contents, account them, append the container exactly when its length is > 0 and return to the ID state; reads=%v consumed=%v appends=%d under %v next=%v", s2.reads, s2.dec, s2.appends, s2.appCond, s2.next)
-	// Add* helpers
-	for _, t := range []struct {
-		name string
-		n    int64
-	}{{"AddDNSServerIPv4AddressRequest", 0}, {"AddDNSServerIPv6AddressRequest", 0}, {"AddIPAddressAllocationViaNASSignallingUL", 0},
-		{"AddDNSServerIPv4Address", 4}, {"AddDNSServerIPv6Address", 16}, {"AddIPv4LinkMTU", 2}} {
-		f := c.P.Func(pNasC, "ProtocolConfigurationOptions."+t.name)
-		if f == nil {
-			continue
-		}
-		c.Analysed(pNasC + ".PCO." + t.name)
-		fp := core.NewPather(f)
-		var ln int64 = -1
-		appended := int64(0)
-		known := true
-		for _, b := range f.Blocks {
-			for _, in := range b.Instrs {
-				switch x := in.(type) {
-				case *ssa.Store:
-					if strings.HasSuffix(fp.Path(x.Addr), ".LengthOfContents") {
-						ln, _ = core.ConstInt(x.Val)
-					}
-				case *ssa.Call:
-					if core.CalleeName(&x.Call) == "builtin.append" && strings.HasSuffix(fp.Path(x.Call.Args[0]), ".Contents") {
-						src := fp.Path(x.Call.Args[1])
-						switch {
-						case strings.HasPrefix(src, "["):
-							appended += int64(len(splitTop(src)))
-						case strings.HasPrefix(src, "call:net.IP.To4("):
-							appended += 4
-						case strings.HasPrefix(src, "call:net.IP.To16("):
-							appended += 16
-						default:
-							known = false
-						}
-					}
-				}
-			}
-		}
-		if !known {
-			c.Note("R17.pco: %s appends contents of a form whose size is not derivable", t.name)
-			continue
-		}
-		c.Check(ln == appended && ln == t.n, R, "nasConvert.PCO."+t.name+":length", f.Pos(), fmt.Sprintf("LengthOfContents %d = %d octets appended", ln, appended), "%s sets LengthOfContents=%d but appends %d octets (container kind needs %d)", t.name, ln, appended, t.n)
-	}
+	r17pcoAddX(c, R)
 }
 
 func isIvName(s string) bool {
